@@ -2,13 +2,16 @@
 
 Correspondence (three layers, all on the same generated proper MDPs):
  1. CERTIFICATE  model/LRTDP.v:c04_check (proved sound over R for every finite MDP, props/C04.v)
-    evaluated by vm_compute on the planner's final result (exact rationals of its floats) together
-    with exact side certificates computed here on Fractions and CHECKED inside Coq: expected steps N
-    of the greedy policy, its exact value, the optimal values (fixed-point test), properness weights.
+    evaluated by vm_compute on the planner's final result (exact rationals of its floats; the policy is
+    the action res.policy RETURNS at each labelled state) together with exact side certificates computed
+    here on Fractions and CHECKED inside Coq: expected steps N of that policy, its exact value, the
+    optimal values (fixed-point test), properness weights.
  2. TRACE CONFORMANCE  the operation log recorded by harness/impl/c04_impl.py (wrappers on the
     planner instance) is replayed through the abstract machine model/LRTDP.v:run — every guard
     (update only unlabelled states, label only closed sets within the margin), every value written,
-    final labels and values; the machine's invariants (props/C04.v) hold for every accepted log.
+    final labels and values, and the returned action = the action recorded at labelling time; the
+    machine's invariants (props/C04.v) hold for every accepted log.  Logs too long for exact
+    arithmetic are covered by layer 1 only (coverage.replay_skipped_long).
  3. PREDICTION  the mirror of _check_solved (cs_loop) predicts flag and closed list of every
     _check_solved call from the machine state.
 Violation search: exact Python oracle (Fractions) for each clause of the property, including the exact
@@ -32,7 +35,7 @@ INFO = {
     "assumptions": [
         "termination ('LRTDP terminates') is observed per case (trial cap), not proved: it is a probability-1 statement about the sampled trials",
         "properness of the MDP enters the theorems as the checked weight certificate W (exists iff every policy reaches the absorbing set with probability 1)",
-        "lrtdp_greedy_stable / values-only-decrease need a monotone heuristic (h >= T h); behaviour on admissible non-monotone heuristics is measured (coverage.nonmonotone)",
+        "stability of the greedy action w.r.t. the FINAL table and values-only-decrease are proved for monotone heuristics only (h >= T h, theorems named _partial); the property itself does not need them on the repaired code (the planner returns the action recorded at labelling time: C04_lrtdp_solved_inv / C04_lrtdp_bound hold for every admissible heuristic); admissible non-monotone heuristics are generated as gating cases (coverage.nonmonotone*)",
     ],
 }
 
@@ -240,7 +243,7 @@ def chk_term(p, case, res):
     ret = [[p.ret[s].get(a, F(0)) for a in range(p.nA)] for s in range(p.n)]
     zero = [F(0)] * p.n
     # greediness w.r.t. the FINAL table is only promised for monotone heuristics (C04_lrtdp_greedy_stable_partial)
-    tgre = p.tiny if p.mono_tol else F(10**6) * p.scale
+    tgre = 1000 * p.tiny if p.mono_tol else F(10**6) * p.scale
     tl = "(mkLTol %s)" % " ".join(q(x) for x in [p.margin + p.tiny, tgre, p.tiny, p.tiny, p.tiny])
     return "chk %s %s %s %s %s %s %s %s %s %s %s %s %s" % (
         mdp_term(p, case), qlist(p.V), blist(p.solved), blist(p.touched), natlist(p.pi), Qv, qmat(ret), q(p.iv),
@@ -397,7 +400,7 @@ def regression_cases():
 # ---------------------------------------------------------------------------------------------
 def run(ctx):
     tier = ctx.tier
-    ncases = 240 if tier == "quick" else 2000
+    ncases = 240 if tier == "quick" else 5000
     if ctx.replay_case:
         cases = [ctx.replay_case["detail"]["case"]]
     else:
@@ -409,12 +412,17 @@ def run(ctx):
     cnt = {k: 0 for k in ["cases", "cert_checks", "replays", "replay_ops", "predictions", "predicted_calls",
                           "nonmonotone", "nonmonotone_cert_ok", "nonmonotone_cert_rejects", "nonadmissible_skipped",
                           "returned_policy_differs_from_labelled_greedy", "untouched_labelled_states",
-                          "recomputed_greedy_differs_from_recorded_action", "regression_cases",
+                          "recomputed_greedy_differs_from_recorded_action", "regression_cases", "replay_skipped_long",
                           "absorbing_initial_mass", "zero_prob_initial_entry", "converged_attr_missing",
                           "absorbing_untouched_reads_heuristic", "prediction_near_margin", "log_overflow",
                           "trials_total", "checks_failed_then_updated"]}
     feats, kinds, margins, distinct = {}, {}, {}, set()
-    maxreplay = 250 if tier == "quick" else 600
+    # exact replay cost: rationals grow with every update; Coq's gcd is quadratic in their length.
+    # Measured: dyadic gamma (everything stays dyadic) ~2 s at 150 ops; gamma 9/10, 19/20: 5 s at 100 ops,
+    # 17 s at 200.  Longer logs are covered by the certificate only (counted in replay_skipped_long).
+    def maxreplay(case):
+        dy = F(case["mdp"]["gamma"]).denominator in (1, 2, 4, 8)
+        return (250 if tier == "quick" else 300) if dy else 100
     for i, (case, res) in enumerate(zip(cases, impl)):
         cnt["cases"] += 1
         if "error" in res:
@@ -445,7 +453,9 @@ def run(ctx):
         terms.append(chk_term(p, case, res))
         meta.append(("chk", i))
         mops = machine_ops(res["ops"])
-        if not res["ops_overflow"] and len(mops) <= maxreplay:
+        if res["ops_overflow"] or len(mops) > maxreplay(case):
+            cnt["replay_skipped_long"] += 1
+        else:
             mt = mdp_term(p, case)
             ordt = ord_term(p, case, res)
             tol = q(F(1, 10**9))
@@ -457,7 +467,14 @@ def run(ctx):
             if ncalls:
                 terms.append("prd %s %s %s %s %s %s %s" % (mt, q(p.margin), epsl, ordt, supp_term(p, case), qlist(p.h), calls_term(res["ops"])))
                 meta.append(("prd", i))
-    vals = ctx.coq(PRE, terms, shard=10 if tier == "quick" else 30)
+    # certificate terms and replay/prediction terms in separate coqc batches (a slow replay must not
+    # take certificate verdicts with it)
+    ichk = [k for k, (kd, _) in enumerate(meta) if kd == "chk"]
+    irpl = [k for k, (kd, _) in enumerate(meta) if kd != "chk"]
+    vals = [None] * len(terms)
+    for idx, tag, sh in ((ichk, "cert", 10 if tier == "quick" else 30), (irpl, "replay", 10 if tier == "quick" else 16)):
+        for k, v in zip(idx, ctx.coq(PRE, [terms[k] for k in idx], shard=sh, tag=tag)):
+            vals[k] = v
 
     for (kind, i), v in zip(meta, vals):
         case, res, p = cases[i], impl[i], preps[i]
@@ -491,8 +508,16 @@ def run(ctx):
             names = ["guards", "written-values", "final-labels", "final-values", "recorded-actions"]
             failed = [nm for nm, okv in zip(names, v) if not okv]
             if failed:
+                diag = None
+                if len(ctx.violations) < 40:      # first failing operation (index, 1 = guard / 2 = value), for the replay file
+                    mops = machine_ops(res["ops"])
+                    dv = ctx.coq(PRE, ["rdiag %s %s %s %s %s %s" % (mdp_term(p, case), q(p.margin + p.tiny), ord_term(p, case, res),
+                                                               q(F(1, 10**9)), qlist(p.h), coqlist(op_term(o) for o in mops))], tag="diag")
+                    if dv and not isinstance(dv[0], vlib.CoqError):
+                        k = dv[0][0]
+                        diag = {"index": k, "code": dv[0][1], "op": mops[k] if k < len(mops) else None}
                 ctx.violation("C04:trace-not-a-run-of-the-machine:" + "+".join(failed),
-                              dict(base, failed=failed, ops=res["ops"][:400],
+                              dict(base, failed=failed, first_bad_operation=diag, ops=res["ops"][:400],
                                    correspondence="model/LRTDP.v:replay_check rejects the recorded operation sequence"), found=False)
         else:
             cnt["predictions"] += 1
